@@ -126,6 +126,15 @@ Definition step_line (v : server) (line : string) : server * list string :=
       let v' := do_restart v in
       let e := match restore c (sv_fs v) (init_state (st_now (sv_st v))) with Some _ => "0" | None => "1" end in
       (v', ["T err=" +:+ e +:+ " ls=" +:+ show_Z (sv_ls v')])
+  | "KW" :: cn :: args =>
+      (* a command served between the state copy and the encoding of a snapshot: the snapshot is of the state before it *)
+      match parse_int cn, unhex_all args with
+      | Some c0, Some argv =>
+          let '(v1, r) := do_snapshot v None in
+          let '(w', out) := step_event (sv_w v1) (ECmd c0 argv) in
+          (Server w' (sv_fs v1) (sv_ls v1) (sv_thr v1), v_line v1 r (sv_ls v) :: out)
+      | _, _ => (v, ["BAD " +:+ line])
+      end
   | ["L"; _; _] =>
       (* a leftover temporary file of an earlier crash: the plan creates (truncates) its temporary files before
          writing them, so whatever they held is unobservable — C10_crash_atomic is stated for every directory content *)
